@@ -65,7 +65,44 @@ class Purity:
         return False
 
     # --- what a function body mutates, as (root name, attr path) pairs
-    def _mutations(self, f: FuncDef) -> Set[Tuple[str, Tuple[str, ...]]]:
+    @staticmethod
+    def _aliases(f: FuncDef) -> Dict[str, Tuple[str, Tuple[str, ...]]]:
+        """local names bound once to (part of) the state of another name: `c = self._cache`, `c = self._cache[k]`,
+        `c = self.__dict__.setdefault(..)` / `.get(..)` - changing the alias changes what it is taken from"""
+        out = {}
+        params = {p.arg for p in f.params}
+        for name, bs in f.local_bindings().items():
+            if name in params or len(bs) != 1 or bs[0][0] != 'assign' or bs[0][1] is None:
+                continue
+            v = bs[0][1]
+            while True:
+                if isinstance(v, ast.Subscript):
+                    v = v.value
+                elif isinstance(v, ast.Call) and isinstance(v.func, ast.Attribute) and v.func.attr in ('setdefault', 'get'):
+                    v = v.func.value
+                else:
+                    break
+            r = _root_name(v)
+            if r and r[1] and r[0] != name:
+                out[name] = r
+        return out
+
+    def _mutations(self, f: FuncDef, ignore_paramless: bool = False) -> Set[Tuple[str, Tuple[str, ...]]]:
+        """ignore_paramless: what a method without parameters (other than self) stores is a function of the object
+        alone (lazy initialisation) and is not reported"""
+        if ignore_paramless and f.self_name and len(f.params) == 1:
+            return set()
+        aliases = self._aliases(f)
+        found = self._mutations_(f, ignore_paramless)
+        out = set()
+        for root, path in found:
+            if root in aliases:
+                ar, ap = aliases[root]
+                out.add((ar, ap + path))
+            out.add((root, path))
+        return out
+
+    def _mutations_(self, f: FuncDef, ignore_paramless: bool) -> Set[Tuple[str, Tuple[str, ...]]]:
         out = set()
         for n in walk_own(f.node):
             if isinstance(n, (ast.Assign, ast.AugAssign, ast.AnnAssign)) and self._is_value_keyed_memo(f, n):
@@ -110,7 +147,7 @@ class Purity:
                         and n.func.value.id == f.self_name and fd.self_name and fd not in self._self_in_progress:
                     # a helper method called on self: what it changes in self is changed by this method too
                     self._self_in_progress.add(fd)
-                    for root, path in self._mutations(fd):
+                    for root, path in self._mutations(fd, ignore_paramless):
                         if root == fd.self_name and path:
                             out.add((f.self_name, path))
                     self._self_in_progress.discard(fd)
@@ -169,12 +206,12 @@ class Purity:
         self._summary[f] = res
         return res
 
-    def self_mutations(self, m: FuncDef) -> List[Tuple[str, int]]:
-        """(attribute of self, line) that application method m changes or hands to something that changes it"""
+    def self_mutations(self, m: FuncDef, ignore_paramless: bool = False) -> List[str]:
+        """attributes of self that method m changes or hands to something that changes it"""
         out = []
         if not m.self_name:
             return out
-        for root, path in sorted(self._mutations(m)):
+        for root, path in sorted(self._mutations(m, ignore_paramless)):
             if root == m.self_name and path:
                 out.append(path[0])
         return sorted(set(out))
